@@ -69,6 +69,14 @@ Theorem C16_exception_rows_reject_unchanged :
 Proof. exact exception_rows_reject_unchanged. Qed.
 Print Assumptions C16_exception_rows_reject_unchanged.
 
+(* per keeper: every keeper constructor in app/keepers/keepers.go that receives an authority receives the governance
+   module address (authAddr, bound to NewModuleAddress(gov).String(), or that expression itself), and none of the
+   24 keepers known to take one has lost it *)
+Theorem C16_keepers_get_gov_authority :
+  keeper_authorities_ok gen_keeper_authorities = true /\ String.eqb gen_authaddr_expr authaddr_expected = true.
+Proof. exact keepers_get_gov_authority. Qed.
+Print Assumptions C16_keepers_get_gov_authority.
+
 (* privileged handlers are reached only through baseapp's MsgServiceRouter, whose wrapper runs ValidateBasic
    first (pinned source): the only by-name calls in fx-core are the crosschain router's forwards *)
 Theorem C16_reached_only_through_router :
